@@ -20,8 +20,8 @@ ASSUMPTIONS = [
     "max_k <= n_train-1 (the density estimate needs k neighbours)",
 ]
 BUDGET = {
-    "quick": {"cases": 2400, "seconds": 60, "shards": 8},
-    "thorough": {"cases": 40000, "seconds": 540, "shards": 16},
+    "quick": {"cases": 8000, "seconds": 90, "shards": 8},
+    "thorough": {"cases": 120000, "seconds": 900, "shards": 16},
 }
 REQUIRED_OBS = ["sup_resub_checked", "sup_predict_train_checked", "knn_resub_checked", "knn_tied_or_duplicate_cases"]
 MIN_NONTRIVIAL = 100
